@@ -223,7 +223,7 @@ pub fn run(ctx: &Ctx, report: &mut Report) {
         holds an entry."
         .into();
     report.assumptions.push("reference catalog vmodel::zone::MCatalog (BTreeMap keyed by class and folded name)".into());
-    run_prop(ctx, report, PropSpec { name: "catalog-history", cases: ctx.tier.pick(40_000, 1_000_000), max_shrink_iters: 8192 }, case_strategy, oracle);
+    run_prop(ctx, report, PropSpec { name: "catalog-history", cases: ctx.tier.pick(200_000, 3_000_000), max_shrink_iters: 8192 }, case_strategy, oracle);
 }
 
 pub fn replay(_check: &str, case: &serde_json::Value) -> Verdict {
